@@ -1299,6 +1299,31 @@ CLEANUP:
 }
 
 /* ========================================================================= */
+/** @brief the dual vector that has just passed QSexact_optimal_test (it is in
+ * the cache of the problem) is the basic dual solution of the given basis if
+ * and only if the reduced cost of every basic variable is zero; only then the
+ * optimality of the pair is a statement about the basis */
+static int QSexact_dual_of_basis (mpq_QSdata * p,
+																	QSbasis * basis)
+{
+	int i;
+
+	if (!p->cache)
+		return 0;
+	for (i = basis->nstruct; i--;)
+	{
+		if (basis->cstat[i] == QS_COL_BSTAT_BASIC && mpq_sgn (p->cache->rc[i]))
+			return 0;
+	}
+	for (i = basis->nrows; i--;)
+	{
+		if (basis->rstat[i] == QS_ROW_BSTAT_BASIC && mpq_sgn (p->cache->pi[i]))
+			return 0;
+	}
+	return 1;
+}
+
+/* ========================================================================= */
 /** @brief test whether given basis is dual feasible in rational arithmetic. 
  * if wanted it will first directly test the corresponding approximate dual and primal solution 
  * (corrected via dual variables for bounds and primal variables for slacks if possible) for optimality
@@ -1377,7 +1402,7 @@ int QSexact_verify (
             /* test optimality of constructed solution: the verdict is about the
              * caller's basis, which is also what the rational check below gets */
             rval = QSexact_optimal_test(p_mpq, x_mpq, y_mpq, basis);
-            if( rval )
+            if( rval && QSexact_dual_of_basis(p_mpq, basis) )
             {
                *result = 1;
                if( dobjval )
@@ -1430,7 +1455,7 @@ int QSexact_verify (
          /* test optimality of constructed solution: the verdict is about the
           * caller's basis, which is also what the rational check below gets */
          rval = QSexact_optimal_test(p_mpq, x_mpq, y_mpq, basis);
-         if( rval )
+         if( rval && QSexact_dual_of_basis(p_mpq, basis) )
          {
             *result = 1;
             if( dobjval )
